@@ -100,7 +100,9 @@ func c10Query(vs [][]string) string {
 func c10Exec(in []string) []string {
 	switch in[0] {
 	case "P":
-		host, base, pattern := proto.UnB(in[1]), proto.UnB(in[2]), proto.UnB(in[3])
+		// base: N<hex> = handed to client.New; <hex> = Runtime.BasePath set directly by the caller
+		viaNew := strings.HasPrefix(in[2], "N")
+		host, base, pattern := proto.UnB(in[1]), proto.UnB(strings.TrimPrefix(in[2], "N")), proto.UnB(in[3])
 		names, vals := proto.UnL(in[4]), proto.UnL(in[5])
 		w := c10Writer{query: c10ParseValues(in[6], in[7])}
 		for i := range names {
@@ -109,8 +111,13 @@ func c10Exec(in []string) []string {
 		// rebuild several times: Go's map iteration order varies from run to run
 		var first string
 		for k := 0; k < 4; k++ {
-			rt := client.New(host, "/", []string{"http"})
-			rt.BasePath = base // what the Runtime holds (client.New's normalisation is applied by the generator)
+			var rt *client.Runtime
+			if viaNew {
+				rt = client.New(host, base, []string{"http"})
+			} else {
+				rt = client.New(host, "/", []string{"http"})
+				rt.BasePath = base
+			}
 			req, err := rt.CreateHttpRequest(&runtime.ClientOperation{ID: "op", Method: "GET", PathPattern: pattern, Params: w})
 			var got string
 			if err != nil {
@@ -315,10 +322,15 @@ func c10Gen(r *proto.Rng, n int, tier string, emit func(in ...string)) {
 			if r.Chance(1, 40) {
 				base = r.Pick("//h/b", "http://h/b?x=1", "//h", "/b%2Fc", "/b#f", "/a b", "h:80/b", "/%zz")
 			}
-			// client.New's normalisation: what the Runtime holds is what the model starts from
-			base = client.New(c10Host, base, nil).BasePath
+			if r.Chance(1, 10) {
+				// a query fixed in the base path whose text a path normalisation would damage
+				base = r.Pick("/api", "api", "/", "") + "?" + r.Pick("cb=http://h//x/", "next=/home/", "dir=a/./b", "p=/a/../b&q=//")
+			}
+			// the base path as handed to client.New (its rooting is part of the model) …
+			baseField := "N" + proto.B(base)
 			if r.Chance(1, 40) {
-				base = r.Pick("", "api", "?x=1") // Runtime.BasePath set directly by the caller
+				base = r.Pick("", "api", "?x=1", "/api") // … or Runtime.BasePath set directly by the caller
+				baseField = proto.B(base)
 			}
 			// parameters: the pattern's names (possibly some missing / extra), distinct keys
 			seen := map[string]bool{}
@@ -358,7 +370,7 @@ func c10Gen(r *proto.Rng, n int, tier string, emit func(in ...string)) {
 				}
 				ck, cv = c10Values(v)
 			}
-			emit("P", proto.B(c10Host), proto.B(base), proto.B(pattern), proto.L(ns), proto.L(vs), ck, cv)
+			emit("P", proto.B(c10Host), baseField, proto.B(pattern), proto.L(ns), proto.L(vs), ck, cv)
 		case i%10 < 9:
 			mk := func() (string, string) {
 				nk := r.Intn(3)
